@@ -56,9 +56,10 @@ func IterateProcessedTime(store sdk.KVStore, cb func(key, val []byte) bool) {
 	defer iterator.Close()
 	for ; iterator.Valid(); iterator.Next() {
 		key := iterator.Key()
-		keySplit := strings.Split(string(key), "/")
+		// the height is 16 raw bytes and may itself contain the separator
+		keySplit := strings.SplitN(string(key), "/", 2)
 		// processed time key in prefix store has format: "consensusState/<height>/processedTime"
-		if len(keySplit) != 3 || keySplit[2] != "processedTime" {
+		if len(keySplit) != 2 || !strings.HasSuffix(keySplit[1], string(KeyProcessedTime)) {
 			// ignore all consensus state keys
 			continue
 		}
